@@ -5,7 +5,7 @@ Line driver for C12.
 * `X f <code>` — the machine of `Model/NeoExec.lean` on `<code>` with feature flags `f` (1 = AllowReaderEOF + DisableHasKey), at most
   20000 opcodes: `halt e=[…] a=[…]` (both stacks, top first, containers numbered in order of first visit, `@k` = container k again),
   `fault`, `unmodelled`, `steplimit`, `toodeep` (a value nested deeper than 3000), or — never, by `C12_step_total_no_oob` — `MODEL-PANIC`.
-* `V … | N … | E …` — outside the model: the line carries only the crash predicate (evaluated by the harness on what the real code
+* `V … | N … | E … | W …` — outside the model: the line carries only the crash predicate (evaluated by the harness on what the real code
   did); the model accepts every observation (`nocrash ## CRASH ## PANIC ## TIMEOUT`).
 -/
 namespace OntVerif.Driver.C12
@@ -92,6 +92,7 @@ def handle (line : String) : String :=
   | "V" :: _ => outside
   | "N" :: _ => outside
   | "E" :: _ => outside
+  | "W" :: _ => outside
   | _ => "badline"
 
 end OntVerif.Driver.C12
